@@ -16,6 +16,10 @@ Every part also walks the overall LEVEL of the records (the physical unit they a
 to the payload's own unit level. Every oracle of the four parts is scale-equivariant (relative errors, ratios), and bilinearity itself
 demands Sy(G Y, G Yref) = G^2 Sy(Y, Yref) for EVERY common gain G, not only for gains near 1: the lattice compares records of levels
 that are many decades apart (values and real/complex kind of the returned array), the class route does the same through run().
+The lattice and the class part also walk DEGENERATE but legal records (the data axis of 'for every record'): one channel identically zero
+(a dead sensor logged as zeros: as data channel only, as reference channel only, as both), a constant channel, a channel that is zero
+except for one sample, two identical channels - every position of the channel, every reference list. Bilinearity says zero in, zero out;
+Welch equality, Hermitian symmetry and positive semidefiniteness hold for them like for any other record.
 """
 import itertools
 
@@ -26,13 +30,14 @@ from mc.core import Tally
 
 ID = "C13"
 TECHNIQUE = ("exhaustive walk of the configuration lattice (channels, reference subset, segment length, overlap, record "
-             "length, sampling rate, estimator, record level, common gain, gain, delay, placement, grid line, amplitudes) around a deterministic "
+             "length, sampling rate, estimator, record level, common gain, degenerate record kind and channel, gain, delay, placement, grid line, amplitudes) around a deterministic "
              "payload alphabet; oracle on every point: independent Welch reference, algebraic identities, gain/delay and "
              "amplitude-ratio relations")
 LEVEL_TEXT = ("bounded-exhaustive over the stated lattices; the quantifier over all real-valued records is covered by one "
-              "payload alphabet per seed (small-scope hypothesis), expressed in five units (levels 1e-9 ... 1e6); the delay tolerances are the property's own calibrated "
+              "payload alphabet per seed (small-scope hypothesis), expressed in five units (levels 1e-9 ... 1e6), plus the degenerate records made from it (a dead, "
+              "a constant, a one-sample, a duplicated channel at every position); the delay tolerances are the property's own calibrated "
               "numbers, so a loss of accuracy inside them is not seen")
-RULE = ("one case = one lattice point (part, channels, reference list, nxseg, overlap, length, fs, estimator, record level[, gain, delay, "
+RULE = ("one case = one lattice point (part, channels, reference list, nxseg, overlap, length, fs, estimator, record level[, degenerate kind and channel][, gain, delay, "
         "placement | grid line, amplitude tuple | class]); non-trivial iff the spectral matrix has at least two "
         "(channel, reference) pairs, so that pairing/conjugation can go wrong (delay, sine and class cases always have)")
 ASSUMPTIONS = [
@@ -57,6 +62,22 @@ ASSUMPTIONS = [
     "G^2 Sy(Y, Yref), 1e-10 of the largest entry, with the same kind of array (complex) on both sides - quick: one lattice point in three, "
     "G rotating over the four levels; thorough: every point; on the points whose base record is at level L, G = 1/L (back to unit level). "
     "Levels are limited to 1e-9 ... 1e6 so that the squares (1e-18 ... 1e12 times the unit-level densities) stay far from under/overflow",
+    "degenerate records (lattice and class parts; channels 1..3, thorough 1..4, every reference list of the level sub-lattice, segment lengths "
+    "16, 64, 26, 39 (thorough also 256, 130), both estimators, overlap / length / fs / record level rotating): the payload record with channel k "
+    "identically zero ('zero': data channel only when k is not a reference, data and reference when it is), with reference row j identically zero "
+    "while the data keep it ('zero-ref'), with channel k constant (payload value, either sign), with channel k zero except for ONE sample inside "
+    "the first segment, with channel l a copy of channel k ('twin'); every k, j and pair (k, l). All oracles of the lattice apply unchanged "
+    "(grid, shape, finiteness, bilinearity against non-degenerate second records, far common gain, Welch, and with data == reference Hermitian / "
+    "PSD / Parseval); added judgements: every entry that involves an identically zero channel is zero (zero in, zero out: <= 1e-10 of the "
+    "density level 2 dt rms(data) rms(reference) of the record before the channel was zeroed - exactly zero where that level is zero), and the "
+    "rows (columns) of two identical channels are equal. Ground-truth rules, from the constructed record and never from the output: Parseval's "
+    "relative error is not formed for a channel whose window-weighted mean square is zero by construction (zero and constant channels - "
+    "their spectra are covered by zero-in-zero-out and Welch equality); where the whole record is zero or constant (one channel) the relative "
+    "errors are taken against the density level 2 dt rms(data) rms(reference) of the record as given, not against the largest returned entry "
+    "(which is zero, or rounding residue of the mean removal)",
+    "class route with degenerate records: FDD, EFDD, FSDD with every kind (zero, const, spike, twin), pLSCF with the one-sample channel only - "
+    "with a zero, constant or duplicated channel the spectral matrix is singular at every line by construction, and pLSCF's identification "
+    "(not the estimation this property is about) has no solution there (LinAlgError: Singular matrix on the unchanged tree)",
 ]
 
 TOL_WELCH = 1e-10
@@ -167,9 +188,62 @@ def pay(seed, tag, shape):
     return _PAY[k].copy()
 
 
-def relmax(a, b):
-    s = float(np.max(np.abs(b)))
+def relmax(a, b, floor=0.0):
+    s = max(float(np.max(np.abs(b))), floor)
     return float(np.max(np.abs(a - b))) / (s if s > 0 else 1.0)
+
+
+# ------------------------------------------------------------------------------------------------
+# degenerate but legal records: a dead (identically zero), a constant, a one-sample, a duplicated channel
+
+DEG_KINDS = ("zero", "zero-ref", "const", "spike", "twin")
+DEG_LEVELS = (1.0,) + LEVELS
+
+
+def deg_key(deg, refs=None):
+    """outcome / class key of a degenerate kind; 'zero' says whether the dead channel is a data channel only or a reference as well"""
+    k = deg[0]
+    if k == "zero" and refs is not None:
+        return "zero:data+reference" if deg[1] in list(refs) else "zero:data-only"
+    return {"zero-ref": "zero:reference-only"}.get(k, k)
+
+
+def degenerate(X, deg, seed, lev, nxseg):
+    """The record X (channels x samples) with the degenerate channel of `deg` (a modified copy) and the ground truth about it:
+    (record, channels identically zero, channels constant, pairs of identical channels). 'zero-ref' leaves the data as they are."""
+    X = X.copy()
+    kind_ = deg[0]
+    dead, flat, twins = set(), set(), []
+    if kind_ == "zero":
+        X[deg[1], :] = 0.0
+        dead.add(deg[1])
+    elif kind_ == "const":
+        X[deg[1], :] = lev * payload.entries(seed, "c13/deg/const", (8,))[deg[1]]          # modulus 0.2 .. 1, either sign
+        flat.add(deg[1])
+    elif kind_ == "spike":
+        X[deg[1], :] = 0.0
+        X[deg[1], nxseg // 2 + 1 + deg[1]] = 3.0 * lev * payload.entries(seed, "c13/deg/spike", (8,))[deg[1]]     # inside the first segment
+    elif kind_ == "twin":
+        X[deg[2], :] = X[deg[1], :]
+        twins.append((deg[1], deg[2]))
+    elif kind_ != "zero-ref":
+        raise ValueError(deg)
+    return X, dead, flat, twins
+
+
+def live_record(dead, flat, n):
+    """False iff every channel of the record is identically zero or constant (ground truth from the construction)"""
+    return any(i not in dead and i not in flat for i in range(n))
+
+
+def rms(X):
+    return np.sqrt(np.mean(np.asarray(X, dtype=float) ** 2, axis=1)) if X.shape[0] else np.zeros(0)
+
+
+def density_level(A, B, dt):
+    """ground-truth level of the spectral densities of (data A, references B): 2 dt rms rms (the mean of a one-sided density over 0..fs/2
+    is mean square / (fs/2)); zero iff one of the two records is identically zero"""
+    return 2.0 * dt * float(np.max(rms(A))) * float(np.max(rms(B)))
 
 
 # ------------------------------------------------------------------------------------------------
@@ -180,6 +254,7 @@ def lattice_case(item):
     idx, n_all, refs, nxseg, pov, nseg, fs, method = cfg[:8]
     lev = cfg[8] if len(cfg) > 8 else 1.0            # level of the base records
     far = cfg[9] if len(cfg) > 9 else None           # common gain many decades away from 1 (None: not evaluated on this point)
+    deg = cfg[10] if len(cfg) > 10 else None         # degenerate record: (kind, channel[, second channel]); None: the payload record as it is
     t = Tally()
     t.states = 1
     case = {"part": "lattice", "cfg": list(cfg), "seed": seed}
@@ -191,7 +266,21 @@ def lattice_case(item):
     R2 = pay(seed, f"c13/R2/{len(refs)}/{N}", (len(refs), N))
     if lev != 1.0:
         X1, X2, R2 = lev * X1, lev * X2, lev * R2
+    dead, flat, twins, dead_ref, floor, zlevel = set(), set(), [], set(), 0.0, 0.0
+    if deg is not None:
+        # ground truth about the degenerate record, from its construction: identically zero data channels / reference rows, constant
+        # channels, identical channels; the density level of the record before (zlevel) and after (floor) the channel was overwritten
+        base = X1
+        X1, dead, flat, twins = degenerate(X1, deg, seed, lev, nxseg)
     R1 = X1[list(refs)].copy()
+    if deg is not None:
+        zlevel = density_level(base, base[list(refs)], dt)
+        if deg[0] == "zero-ref":
+            R1[deg[1], :] = 0.0
+            dead_ref.add(deg[1])
+        dead_ref |= {j for j, r in enumerate(refs) if r in dead}
+        floor = density_level(X1, R1, dt)
+    same = deg is None or deg[0] != "zero-ref"       # the reference rows ARE the data channels `refs`
     nr = len(refs)
     key_m = method
 
@@ -225,7 +314,7 @@ def lattice_case(item):
     if not np.all(np.isfinite(S)):
         t.violation(f"non-finite:{key_m}", f"{method}: Sy contains non-finite values for {cfg}", case)
         return t
-    scale = float(np.max(np.abs(S))) or 1.0
+    scale = max(float(np.max(np.abs(S))), floor) or 1.0         # floor: 0 except on degenerate records (ground-truth density level)
     # bilinearity per argument
     try:
         S21 = np.asarray(call(X2, R1)[1])
@@ -252,6 +341,33 @@ def lattice_case(item):
             t.violation(f"bilinear:{k}:{key_m}", f"{method}: {k} violated by {e:.3g} (relative to the largest entry) for {cfg}", case)
         else:
             t.outcomes[f"bilinear-ok:{method}"] += 1
+    if deg is not None:
+        t.validated += 1
+        dk = deg_key(deg, refs)
+        okz = True
+        if dead or dead_ref:
+            # zero in, zero out: every entry that pairs an identically zero data channel or reference row
+            z = max([float(np.max(np.abs(S[i, :, :]))) for i in sorted(dead)] + [float(np.max(np.abs(S[:, j, :]))) for j in sorted(dead_ref)])
+            t.err(f"degenerate:zero-channel-entries/density-level:{method}", z / zlevel if zlevel > 0 else z)
+            if not z <= TOL_BILIN * zlevel:
+                okz = False
+                t.violation(f"bilinear:zero-in-zero-out:{dk}:{key_m}",
+                            f"{method}: data channel(s) {sorted(dead)} / reference row(s) {sorted(dead_ref)} of the record are identically zero, but the entries "
+                            f"of Sy that pair them reach {z:.3g} (density level of the record before the channel was zeroed: {zlevel:.3g}); "
+                            f"bilinearity requires Sy(0, y) = Sy(x, 0) = 0; degenerate record {list(deg)}; {cfg}", case)
+        for (k, l) in twins:
+            # identical channels: identical rows, and identical columns where both are references
+            e = float(np.max(np.abs(S[k] - S[l]))) / scale
+            for jk, jl in [(list(refs).index(k), list(refs).index(l))] if (same and k in refs and l in refs) else []:
+                e = max(e, float(np.max(np.abs(S[:, jk] - S[:, jl]))) / scale)
+            t.err(f"degenerate:identical-channels:{method}", e)
+            if not e <= TOL_BILIN:
+                okz = False
+                t.violation(f"pairing:identical-channels:{key_m}",
+                            f"{method}: channels {k} and {l} of the record are identical, their rows / columns of Sy differ by {e:.3g} of the largest "
+                            f"entry; degenerate record {list(deg)}; {cfg}", case)
+        if okz:
+            t.outcomes[f"degenerate-entries-ok:{dk}:{method}"] += 1
     if far is not None:
         # the square law for a common gain many decades away from 1: values and kind (complex) of the returned array
         try:
@@ -284,7 +400,7 @@ def lattice_case(item):
         # independent Welch estimate; lines >= 2
         if nf > 2:
             W = welch_ref(X1, R1, fs, nxseg, pov)
-            e = relmax(S[:, :, 2:], W[:, :, 2:])
+            e = relmax(S[:, :, 2:], W[:, :, 2:], floor)
             t.validated += 1
             t.err("welch:lines>=2", e)
             t.err("welch:lines<2(not judged)", relmax(S[:, :, :2], W[:, :, :2]) if np.max(np.abs(W[:, :, :2])) > 0 else 0.0)
@@ -299,7 +415,7 @@ def lattice_case(item):
                                          f"of the largest entry on lines >= 2{how}; {cfg}", case)
             else:
                 t.outcomes["welch-equal"] += 1
-        if list(refs) == list(range(n_all)):
+        if list(refs) == list(range(n_all)) and same:
             # data == reference: Hermitian, positive semidefinite, Parseval
             t.validated += 1
             eh = float(np.max(np.abs(S - np.conj(np.swapaxes(S, 0, 1))))) / scale
@@ -326,23 +442,38 @@ def lattice_case(item):
             integ = np.array([float(np.sum(S[i, i, :].real)) * fs / nxseg for i in range(n_all)])
             ms_d = weighted_ms(X1, nxseg, pov, True)
             ms_r = weighted_ms(X1, nxseg, pov, False)
-            e_d = float(np.max(np.abs(integ - ms_d) / ms_d))
-            e_r = float(np.max(np.abs(integ - ms_r) / ms_r))
+            # channels whose window-weighted mean square (segment means removed) is zero BY CONSTRUCTION (identically zero, constant) have no
+            # relative Parseval error; none outside the degenerate records
+            live = [i for i in range(n_all) if i not in dead and i not in flat]
+            if not live:
+                t.outcomes["parseval-not-formed:no-channel-with-non-zero-mean-square"] += 1
+                e_d = e_r = 0.0
+            else:
+                e_d = float(np.max(np.abs(integ[live] - ms_d[live]) / ms_d[live]))
+                e_r = float(np.max(np.abs(integ[live] - ms_r[live]) / ms_r[live]))
             t.err("parseval", min(e_d, e_r))
-            if not min(e_d, e_r) <= 1e-10:
+            if not live:
+                pass
+            elif not min(e_d, e_r) <= 1e-10:
                 t.violation("parseval:per", f"per: the frequency integral of the auto spectra differs from the window-weighted mean square by "
                                             f"{min(e_d, e_r):.3g} (relative); {cfg}", case)
             else:
                 t.outcomes["parseval-ok:" + ("segment-means-removed" if e_d <= e_r else "raw")] += 1
     if rough(nxseg) and not t.violations:
         t.outcomes[f"rough-nxseg-ok:lattice:{method}:{rough_key(nxseg)}"] += 1
-    if lev != 1.0 and not t.violations:
+    if deg is not None and not t.violations:
+        t.outcomes[f"degenerate-ok:lattice:{deg_key(deg, refs)}:{method}"] += 1
+        if method == "per" and list(refs) == list(range(n_all)) and same:
+            t.outcomes[f"degenerate-ok:lattice:hermitian-psd:{deg_key(deg, refs)}"] += 1
+        if not live_record(dead, flat, n_all):
+            t.outcomes[f"degenerate-ok:lattice:whole-record-{'zero' if dead else 'constant'}:{method}"] += 1
+    if lev != 1.0 and deg is None and not t.violations:
         t.outcomes[f"level-ok:lattice:{method}:{lev_key(lev)}"] += 1
         if method == "per" and list(refs) == list(range(n_all)) and n_all >= 2:
             t.outcomes[f"level-ok:lattice:hermitian-psd-parseval:{lev_key(lev)}"] += 1
-    if idx % 997 == 0 or (lev != 1.0 and idx % 97 == 0):
+    if idx % 997 == 0 or (lev != 1.0 and idx % 97 == 0) or (deg is not None and idx % 89 == 0):
         t.sample({"part": "lattice", "n_all": n_all, "refs": list(refs), "nxseg": nxseg, "pov": pov, "segments": nseg, "fs": fs,
-                  "method": method, "level": lev, "far_common_gain": far, "errors": errs})
+                  "method": method, "level": lev, "far_common_gain": far, "degenerate": list(deg) if deg is not None else None, "errors": errs})
     return t
 
 
@@ -487,6 +618,7 @@ def class_case(item):
     seed, cfg = item
     idx, cls, n, nxseg, pov, method, fs = cfg[:7]
     lev = cfg[7] if len(cfg) > 7 else 1.0            # level of the bound record
+    deg = cfg[8] if len(cfg) > 8 else None           # degenerate record: (kind, channel[, second channel])
     import pyoma2.algorithms as alg
     from pyoma2.setup import SingleSetup
 
@@ -495,6 +627,11 @@ def class_case(item):
     case = {"part": "class", "cfg": list(cfg), "seed": seed}
     N = 6 * nxseg + nxseg // 2
     data = pay(seed, f"c13/C/{n}/{N}", (N, n)) * (1.0 + np.arange(n))
+    dead, twins, zlevel = set(), [], 0.0
+    if deg is not None:
+        zlevel = lev * lev * density_level(data.T, data.T, 1.0 / fs)
+        data = np.ascontiguousarray(degenerate(data.T, deg, seed, 1.0, nxseg)[0].T)
+        dead, twins = ({deg[1]} if deg[0] == "zero" else set()), ([(deg[1], deg[2])] if deg[0] == "twin" else [])
     unit = data
     if lev != 1.0:
         data = lev * data
@@ -524,6 +661,30 @@ def class_case(item):
     if S.shape != (n, n, nf):
         t.violation(f"class:shape:{cls}:{method}", f"{cls}.result.Sy has shape {S.shape}, required {(n, n, nf)}; {cfg}", case)
         return t
+    if deg is not None:
+        # degenerate record through run(): finite, zero in zero out, identical channels -> identical rows and columns (both estimators)
+        dk = deg_key(deg, range(n))
+        if not np.all(np.isfinite(S)):
+            t.violation(f"class:non-finite:{cls}:{method}", f"{cls}.result.Sy contains {int(np.count_nonzero(~np.isfinite(S)))} non-finite entries of {S.size} "
+                                                            f"for the record with the degenerate channel {list(deg)}; {cfg}", case)
+            return t
+        t.validated += 1
+        for i in sorted(dead):
+            z = max(float(np.max(np.abs(S[i, :, :]))), float(np.max(np.abs(S[:, i, :]))))
+            t.err(f"class:degenerate:zero-channel-entries/density-level:{method}", z / zlevel)
+            if not z <= TOL_BILIN * zlevel:
+                t.violation(f"class:bilinear:zero-in-zero-out:{cls}:{method}",
+                            f"{cls}.result.Sy: channel {i} of the bound record is identically zero, its row / column reaches {z:.3g} (density level of the "
+                            f"record before the channel was zeroed: {zlevel:.3g}); {cfg}", case)
+                return t
+        for (k, l) in twins:
+            e = max(float(np.max(np.abs(S[k] - S[l]))), float(np.max(np.abs(S[:, k] - S[:, l])))) / float(np.max(np.abs(S)))
+            t.err(f"class:degenerate:identical-channels:{method}", e)
+            if not e <= TOL_BILIN:
+                t.violation(f"class:pairing:identical-channels:{cls}:{method}",
+                            f"{cls}.result.Sy: channels {k} and {l} of the bound record are identical, their rows / columns differ by {e:.3g} of the "
+                            f"largest entry; {cfg}", case)
+                return t
     if method == "per":
         W = welch_ref(data.T, data.T, fs, nxseg, pov)
         e = relmax(S[:, :, 2:], W[:, :, 2:])
@@ -563,13 +724,17 @@ def class_case(item):
                         f"{cls}.result.Sy is {kind(S)} ({S.dtype}) for the record x {lev:g} and {kind(S1)} ({S1.dtype}) for the record itself; {cfg}", case)
         if bad:
             return t
-        t.outcomes[f"level-ok:class:{cls}:{method}"] += 1
-        t.outcomes[f"level-ok:class:{lev_key(lev)}"] += 1
+        if deg is None:
+            t.outcomes[f"level-ok:class:{cls}:{method}"] += 1
+            t.outcomes[f"level-ok:class:{lev_key(lev)}"] += 1
     t.outcomes[f"class-ok:{cls}:{method}"] += 1
+    if deg is not None:
+        t.outcomes[f"degenerate-ok:class:{cls}:{deg[0]}:{method}"] += 1
     if rough(nxseg):
         t.outcomes[f"rough-nxseg-ok:class:{cls}:{method}"] += 1
-    if idx % 13 == 0:
-        t.sample({"part": "class", "class": cls, "n": n, "nxseg": nxseg, "pov": pov, "method": method, "fs": fs, "level": lev})
+    if idx % 13 == 0 or (deg is not None and idx % 5 == 0):
+        t.sample({"part": "class", "class": cls, "n": n, "nxseg": nxseg, "pov": pov, "method": method, "fs": fs, "level": lev,
+                  "degenerate": list(deg) if deg is not None else None})
     return t
 
 
@@ -631,8 +796,45 @@ def level_points(thorough):
     return out
 
 
+DEG_NXSEG = (16, 64, 26, 39)                     # lattice, degenerate-record sub-lattice (quick); 39: odd, periodogram only
+DEG_NXSEG_T = (16, 64, 256, 26, 39, 130)
+
+
+def deg_kinds(n_all, refs):
+    """every degenerate record of n_all channels with the reference list refs: kind x channel (x second channel)"""
+    out = []
+    for k in range(n_all):
+        out += [("zero", k), ("const", k), ("spike", k)]
+    out += [("zero-ref", j) for j in range(len(refs))]
+    out += [("twin", k, l) for k in range(n_all) for l in range(k + 1, n_all)]
+    return out
+
+
+def degenerate_points(thorough):
+    """Degenerate records: channels 1..3 (thorough ..4) x every reference list x every (kind, channel) x segment lengths (two powers of two,
+    two with a prime factor >= 13) x estimator. quick: overlap, length, fs and record level rotate over (kind and channel, reference list,
+    nxseg, channels); thorough: every overlap up to 2 channels, two overlaps beyond (rotating), the others rotating. The far common gain is evaluated on every point (1/level, or rotating
+    over LEVELS at unit level)."""
+    out = []
+    for n_all in (range(1, 5) if thorough else range(1, 4)):
+        for ri, refs in enumerate(ref_lists(n_all, 4 if thorough else 3)):
+            for ki, deg in enumerate(deg_kinds(n_all, refs)):
+                for xi, nxseg in enumerate(DEG_NXSEG_T if thorough else DEG_NXSEG):
+                    povs = ROUGH_POV[nxseg] if nxseg in ROUGH_POV else POVS
+                    r = ki + ri + xi + n_all
+                    some = (povs[r % len(povs)],) if not thorough else povs if n_all <= 2 else (povs[r % len(povs)], povs[(r + 1) % len(povs)])
+                    for pi, pov in enumerate(some):
+                        nseg = (2, 3, 5.5)[(r // 2 + pi) % 3]
+                        fs = FSS[(r + pi) % 3]
+                        lev = DEG_LEVELS[(r // 3 + pi) % len(DEG_LEVELS)]
+                        far = 1.0 / lev if lev != 1.0 else LEVELS[(r + pi) % len(LEVELS)]
+                        for method in (("per", "cor") if nxseg % 2 == 0 else ("per",)):
+                            out.append((None, n_all, refs, nxseg, pov, nseg, fs, method, lev, far, deg))
+    return out
+
+
 def lattice(thorough):
-    """(idx, n_all, refs, nxseg, pov, nseg, fs, method, level of the base records, far common gain or None)"""
+    """(idx, n_all, refs, nxseg, pov, nseg, fs, method, level of the base records, far common gain or None[, degenerate record])"""
     base = lattice_unit(thorough)
     full = base if thorough else lattice_unit(True)      # axis positions are taken in the thorough lattice: G is the same in both tiers
     xs = sorted({c[3] for c in full})
@@ -649,6 +851,8 @@ def lattice(thorough):
         out.append(tuple(c) + (1.0, far))
     for c in with_quick(level_points, thorough):
         out.append((len(out),) + tuple(c[1:]) + (1.0 / c[8],))       # records at level L: common gain 1/L, back to unit level
+    for c in with_quick(degenerate_points, thorough):
+        out.append((len(out),) + tuple(c[1:]))
     return out
 
 
@@ -831,6 +1035,40 @@ def class_lattice(thorough):
                         out.append((len(out), cls, n, nxseg, pov, method, 50.0))
     for c in with_quick(class_level_points, thorough):
         out.append((len(out),) + c)
+    for c in with_quick(class_degenerate_points, thorough):
+        out.append((len(out),) + c)
+    return out
+
+
+CLASS_DEG_KINDS = {"FDD": ("zero", "const", "spike", "twin"), "EFDD": ("zero", "const", "spike", "twin"), "FSDD": ("zero", "const", "spike", "twin"),
+                   "pLSCF": ("spike",)}      # pLSCF: the identification needs a non-singular spectral matrix (see ASSUMPTIONS)
+
+
+def class_degenerate_points(thorough):
+    out = []
+    # degenerate bound record: class x kind x estimator on a power of two and a length with a prime factor >= 13 (thorough: also 256 and the odd
+    # 65, periodogram only); quick: channels, position of the degenerate channel, overlap and record level rotate; thorough: every channel
+    # count and every position (twin: every pair; 5 channels: two positions / pairs, rotating), overlap and level rotating. One point in three is at a record level other than 1 (the square
+    # law through run() against the same degenerate record at unit level)
+    for ci, cls in enumerate(("FDD", "EFDD", "FSDD", "pLSCF")):
+        for di, kind_ in enumerate(CLASS_DEG_KINDS[cls]):
+            for xi, nxseg in enumerate((64, 52, 256, 65) if thorough else (64, 52)):
+                povs = ROUGH_POV[nxseg] if nxseg in ROUGH_POV else POVS
+                for ni, n in enumerate((2, 3, 5) if thorough else ((2, 3)[(ci + di + xi) % 2],)):
+                    if kind_ == "twin":
+                        degs = [("twin", k, l) for k in range(n) for l in range(k + 1, n)]
+                    else:
+                        degs = [(kind_, k) for k in range(n)]
+                    if not thorough:
+                        degs = [degs[(ci + 2 * di + xi) % len(degs)]]
+                    elif n > 3:
+                        degs = [degs[(ci + 2 * di + xi) % len(degs)], degs[(ci + 2 * di + xi + len(degs) // 2) % len(degs)]]
+                    for gi, deg in enumerate(degs):
+                        r = ci + di + xi + ni + gi
+                        pov = povs[r % len(povs)]
+                        lev = LEVELS[(r // 3) % len(LEVELS)] if r % 3 == 0 else 1.0
+                        for method in (("per", "cor") if nxseg % 2 == 0 else ("per",)):
+                            out.append((cls, n, nxseg, pov, method, 50.0, lev, deg))
     return out
 
 
@@ -854,8 +1092,11 @@ def explore(ctx):
     D = delay_lattice(ctx.thorough)
     S = sine_lattice(ctx.thorough)
     C = class_lattice(ctx.thorough)
+    LD = [c for c in L if len(c) > 10]               # degenerate records
+    CD = [c for c in C if len(c) > 8]
+    L_all, L = L, [c for c in L if len(c) <= 10]     # the bounds below describe the payload records; the degenerate ones have their own entry
     ctx.bounds = {
-        "lattice": {"points": len(L), "channels": sorted({c[1] for c in L}), "reference_lists": sorted({tuple(c[2]) for c in L})[:80],
+        "lattice": {"points": len(L_all), "channels": sorted({c[1] for c in L}), "reference_lists": sorted({tuple(c[2]) for c in L})[:80],
                     "nxseg": sorted({c[3] for c in L}), "pov": list(POVS), "length_in_segments": [2, 3, 5.5], "fs": list(FSS),
                     "nxseg_with_prime_factor>=13": {str(k): {"pov": sorted({c[4] for c in L if c[3] == k}),
                                                              "methods": sorted({c[7] for c in L if c[3] == k}),
@@ -864,6 +1105,19 @@ def explore(ctx):
                     "fs_note": "thorough: full product (nxseg >= 1024 with > 4 channels: fs = 1 only); quick: full product at nxseg 16, beyond "
                                "that one fs per point, rotating over (overlap, length, number of references) so that every fs meets every value of each",
                     "methods": ["per", "cor"], "library_calls_per_point": "7, and 8 where the far common gain is evaluated",
+                    "points_with_payload_records": len(L), "points_with_degenerate_records": len(LD),
+                    "degenerate_records": {"points": len(LD), "kinds": list(DEG_KINDS),
+                                           "kind_x_channel": sorted({tuple(c[10]) for c in LD}),
+                                           "points_per_kind": {k: sum(1 for c in LD if deg_key(c[10], c[2]) == k)
+                                                               for k in sorted({deg_key(c[10], c[2]) for c in LD})},
+                                           "channels": sorted({c[1] for c in LD}), "reference_lists": sorted({tuple(c[2]) for c in LD}),
+                                           "nxseg": sorted({c[3] for c in LD}), "pov": sorted({c[4] for c in LD}),
+                                           "length_in_segments": sorted({c[5] for c in LD}), "fs": sorted({c[6] for c in LD}),
+                                           "methods": sorted({c[7] for c in LD}), "record_levels": sorted({c[8] for c in LD}),
+                                           "whole_record_zero_or_constant": sum(1 for c in LD if c[1] == 1 and c[10][0] in ("zero", "const")),
+                                           "far_common_gain": "every point (1/level, or rotating over the levels at unit level)",
+                                           "constant_and_one-sample_values": "payload, modulus 0.2..1 (x3 for the single sample), either sign, x record level; "
+                                                                             "the single sample sits at nxseg//2 + 1 + channel (inside the first segment)"},
                     "record_level": {"levels": [1.0] + list(LEVELS),
                                      "points_with_base_records_at_a_level_other_than_1": sum(1 for c in L if c[8] != 1.0),
                                      "channels": sorted({c[1] for c in L if c[8] != 1.0}),
@@ -896,8 +1150,15 @@ def explore(ctx):
                     "nxseg_with_prime_factor>=13": {str(k): sum(1 for c in C if c[3] == k) for k in sorted({c[3] for c in C if rough(c[3])})},
                     "record_level": {"levels": [1.0] + list(LEVELS), "points_at_a_level_other_than_1": sum(1 for c in C if len(c) > 7),
                                      "nxseg": sorted({c[3] for c in C if len(c) > 7}), "channels": sorted({c[2] for c in C if len(c) > 7}),
-                                     "oracle": "Welch ('per') and result.Sy(level x record) = level^2 result.Sy(record), same class, both estimators"}},
+                                     "oracle": "Welch ('per') and result.Sy(level x record) = level^2 result.Sy(record), same class, both estimators"},
+                    "degenerate_records": {"points": len(CD), "class_x_kind": sorted({(c[1], c[8][0]) for c in CD}),
+                                           "kind_x_channel": sorted({tuple(c[8]) for c in CD}), "channels": sorted({c[2] for c in CD}),
+                                           "nxseg": sorted({c[3] for c in CD}), "pov": sorted({c[4] for c in CD}),
+                                           "record_levels": sorted({c[7] for c in CD}), "methods": sorted({c[5] for c in CD}),
+                                           "oracle": "finite, zero in zero out, identical channels -> identical rows and columns (both estimators), Welch ('per'), "
+                                                     "square law at a level other than 1"}},
     }
+    L = L_all
     # payload records are generated once, before the workers are forked
     for c in L:
         N = int(round(c[5] * c[3]))
@@ -929,6 +1190,15 @@ def explore(ctx):
                 *[f"level-ok:sine:{lev_key(v)}" for v in LEVELS],
                 *[f"level-ok:class:{c}:{m}" for c in ("FDD", "EFDD", "FSDD", "pLSCF") for m in ("per", "cor")],
                 *[f"level-ok:class:{lev_key(v)}" for v in LEVELS])
+    # vacuity monitors of the degenerate records: every kind on both estimators through SD_est (a dead channel as data only, as reference
+    # only, as both), Hermitian/PSD with a degenerate channel, a record that is zero / constant as a whole, and through run() of the classes
+    deg_keys = ("zero:data-only", "zero:reference-only", "zero:data+reference", "const", "spike", "twin")
+    ctx.require(*[f"degenerate-ok:lattice:{k}:{m}" for k in deg_keys for m in ("per", "cor")],
+                *[f"degenerate-entries-ok:{k}:{m}" for k in deg_keys for m in ("per", "cor")],
+                *[f"degenerate-ok:lattice:hermitian-psd:{k}" for k in ("zero:data+reference", "const", "spike", "twin")],
+                *[f"degenerate-ok:lattice:whole-record-{w}:{m}" for w in ("zero", "constant") for m in ("per", "cor")],
+                "parseval-not-formed:no-channel-with-non-zero-mean-square",
+                *[f"degenerate-ok:class:{c}:{k}:{m}" for c in ("FDD", "EFDD", "FSDD", "pLSCF") for k in CLASS_DEG_KINDS[c] for m in ("per", "cor")])
     if not any(k.startswith("parseval-ok") for k in ctx.tally.outcomes):
         ctx.require("parseval-ok")
 
